@@ -110,4 +110,12 @@ META = {
          "compute_gamma, the seed is set once before the first file, and print / csv / json modes read the same three quantities under the "
          "same -c / -k guards. Bounded (labelled): the numbers themselves, by running the tool in-process against the API.",
    note="argparse and the csv / json writers are trusted; no SMT back end is involved in the wiring obligations."),
+ "C18": dict(
+   technique="contract-based deductive verification of to_csv and from_csv over an assumed model of the csv module (a file is a sequence of rows of "
+             "fields; reader o writer is the identity provided both files are opened with newline='', which is an obligation at every call)",
+   level="Proved: to_csv writes exactly one row [annotator, label, start, end] per (annotator, unit), at the unit's position in iteration order; "
+         "from_csv returns a fresh continuum holding exactly the rows with a positive length (annotator = column 0, label = column 1, times = "
+         "float of columns 2 and 3), raises ValueError only when asked not to discard. Bounded (labelled): TextGrid / ELAN / RTTM readers and "
+         "actual csv quoting.",
+   note="Assumed: csv / open / float-str model; third-party parsers."),
 }
